@@ -192,7 +192,7 @@ func driveC05(c *driverCtx) error {
 			}
 			built++
 			var cases []any
-			for k := 0; k < c.pick(4, 16); k++ {
+			for k := 0; k < c.pick(4, 100); k++ {
 				b := randomEncoding(c.rng, fieldSchema, 0)
 				damaged := false
 				if k%4 == 3 && len(b) > 0 {
